@@ -282,3 +282,47 @@ def c06_strnum(tier="quick", seed=0):
     bad = [b for _, bs in rs for b in bs]
     return [ob("C06.bounded.string-to-number", not bad, "B", f"{len(strs)} numeric strings through 11 observations" if not bad else f"{bad[0][0]!r}: engine {bad[0][2]!r} expected {bad[0][3]!r}",
                witness=(bad[0][1] if bad else None), confirmed=True if bad else None, domain=len(strs))]
+
+
+# ---- bounded: exponentiation over the special-value grid (both spellings) ------------------------------------------------
+@groups.group(id="C06.bounded.exponentiation", prop="C06", kind="B", functions=["microjs.vm:js_pow"])
+def c06_exponentiation(tier="quick", seed=0):
+    """a ** b and Math.pow(a, b) for every pair of a grid of special and ordinary values, against Number::exponentiate:
+    exact where the specification is (NaN, zeros with sign, infinities, unit bases with infinite exponents, exact integer
+    powers), within one ulp where it allows an approximation"""
+    import math
+    from microjs import Context
+    vals = ["NaN", "0", "-0", "1", "-1", "Infinity", "-Infinity", "0.5", "-0.5", "2", "-2", "3", "-3", "1/3", "0.1", "1.7976931348623157e308", "5e-324", "9007199254740992", "-8", "4", "9",
+            "1e-10", "1.0000000000000002", "0.9999999999999999", "-1.0000000000000002", "1e3", "-1e3", "1023", "1024", "-1074", "true", "'2'", "null"]
+    pyv = {"NaN": math.nan, "Infinity": math.inf, "-Infinity": -math.inf, "1/3": 1 / 3, "true": 1.0, "'2'": 2.0, "null": 0.0, "-0": -0.0}
+    num = lambda t: pyv[t] if t in pyv else float(t)
+    c = Context(time_limit=60)
+    bad = None
+    n = 0
+
+    def close(got, want, exact):
+        if isinstance(got, bool) or not isinstance(got, (int, float)):
+            return False
+        g = float(got)
+        if want != want:
+            return g != g
+        if g != g:
+            return False
+        if want == 0 or g == 0:
+            return g == want and math.copysign(1, g) == math.copysign(1, want)
+        if exact or want in (math.inf, -math.inf) or g in (math.inf, -math.inf):
+            return g == want
+        return abs(g - want) <= 2 * math.ulp(want)
+    for a in vals:
+        for b in vals:
+            want, exact = OPS.num_exponentiate(num(a), num(b))
+            for form in (f"({a}) ** ({b})", f"Math.pow({a}, {b})", f"var p = {a}; var q = {b}; p ** q"):
+                n += 1
+                try:
+                    got = c.eval(form)
+                except Exception as e:  # noqa
+                    got = "!" + type(e).__name__
+                if not close(got, want, exact) and bad is None:
+                    bad = (form, got, want)
+    return [ob("C06.bounded.exponentiation", bad is None, "B", f"{n} (base, exponent, spelling) cases" if bad is None else f"{bad[0]} = {bad[1]!r}, ECMAScript {bad[2]!r}",
+               witness=(bad[0] if bad else None), confirmed=True if bad else None, domain=n)]
